@@ -1385,6 +1385,14 @@ def enum_iteration(ctx, probes):
         for a, b in edges:
             for t in ("for i in %d..%d return i", "for i in [1], j in %d..%d return j", "for j in %d..%d, i in [1,2] return j", "for i in %d..%d return partial"):
                 yield case(t % (a, b), [], 6, ["range:inside"])
+        # ranges of astronomical length next to an EMPTY domain: the product of the domains is 0, nothing is iterated, the answer is []
+        # at once - whatever the distance between the end points (it need not fit the machine integer the end points fit)
+        spans = [(-5 * 10 ** 18, 5 * 10 ** 18), (5 * 10 ** 18, -5 * 10 ** 18), (-M, M), (M, -M), (-M - 1, M), (M, -M - 1), (0, M), (M, 0), (-M - 1, 0), (0, -M - 1),
+                 (-2 ** 62, 2 ** 62), (2 ** 62 + 1, -2 ** 62), (-2 ** 31, 2 ** 31), (2 ** 32, -2 ** 32), (1, 10 ** 18), (-3, 2 ** 63 - 4)]
+        for a, b in spans:
+            for t in ("for i in %d..%d, j in [] return i", "for j in [], i in %d..%d return i", "for i in %d..%d, j in [], k in [1, 2] return k",
+                      "for k in [1, 2], i in %d..%d, j in [] return k", "count(for i in %d..%d, j in [1, 2][item > 5] return j)"):
+                yield case(t % (a, b), [], 1, ["range:long-span-next-to-empty-domain"])
         scope = [[["a", N(M - 3)], ["b", N(M - 1)], ["E", N("1E+6000")], ["h", N("0.5")], ["z", N("-0")], ["d", {"date": "2021-01-01"}]]]
         for t in ("for i in a..b return i", "for i in b..a return i", "for i in a..a return i", "for i in 1..E return 1", "for i in h..1 return i", "for i in 0.5..2.5 return i",
                   "for i in z..1 return i", "for i in \"a\"..\"c\" return i", "for i in null..1 return i", "for i in d..d return i", "for i in E..E return 1", "for i in -E..E return 1"):
